@@ -39,6 +39,19 @@ func newC06Pool() *c06Pool {
 		t(n, n, n, n),
 		cty.SetVal([]cty.Value{t(s, n)}),
 	}}
+	// values whose types were computed by the library (element-type slices grown by append,
+	// sub-slices of another type's storage): placeholders returned by type-computing functions
+	derived := func(f function.Function, args ...cty.Value) {
+		if o := callStd(f, args); o.OK() {
+			p.vals = append(p.vals, o.V)
+		}
+	}
+	derived(stdlib.ConcatFunc, cty.UnknownVal(p.vals[0].Type()), t(b))
+	derived(stdlib.ConcatFunc, t(s, n), cty.UnknownVal(cty.Tuple([]cty.Type{cty.Bool})))
+	derived(stdlib.SliceFunc, cty.UnknownVal(p.vals[0].Type()), cty.NumberIntVal(0), cty.NumberIntVal(2))
+	derived(stdlib.SliceFunc, cty.UnknownVal(p.vals[6].Type()), cty.NumberIntVal(1), cty.NumberIntVal(3))
+	derived(stdlib.MergeFunc, cty.UnknownVal(p.vals[4].Type()), o(map[string]cty.Value{"z": n}))
+	derived(stdlib.SetProductFunc, cty.UnknownVal(cty.List(cty.String)), cty.UnknownVal(cty.List(cty.Number)))
 	for _, v := range p.vals {
 		p.texts = append(p.texts, goStr(v))
 	}
@@ -142,6 +155,9 @@ func c06HistoryOps() []histOp {
 			for _, f := range second {
 				f := f
 				desc := fmt.Sprintf("%s of %s with x = retained value %d (%s)", f.name, g.name, i, pool.texts[i])
+				// the first result of every operation is retained, as a caller would
+				var kept cty.Value
+				var keptText string
 				ops = append(ops, histOp{
 					desc: desc,
 					run: func() string {
@@ -156,15 +172,23 @@ func c06HistoryOps() []histOp {
 						if why := wf(r); why != "" {
 							return "malformed result " + goStr(r) + ": " + why
 						}
+						if kept == cty.NilVal {
+							kept, keptText = r, goStr(r)
+						}
 						return goStr(r)
 					},
 					oracle: func(out string) string {
 						if len(out) > 9 && out[:9] == "malformed" {
 							return "the call returned a malformed value"
 						}
+						if kept != cty.NilVal {
+							if now := goStr(kept); now != keptText {
+								return fmt.Sprintf("the result this call returned earlier and the caller kept, %s, now prints %s", keptText, now)
+							}
+						}
 						return pool.check()
 					},
-					perturbing: i < 5 && (g.name == "slice(unknown(type of x),0,1)" || g.name == "unknown(type of x)" || g.name == "x") &&
+					perturbing: (i < 5 || i >= 8) && (g.name == "slice(unknown(type of x),0,1)" || g.name == "unknown(type of x)" || g.name == "x") &&
 						(f.name == "concat(., (false))" || f.name == "Convert(., list(dynamic))" || f.name == "setproduct(., (q,r))" || f.name == "concat(., unknown tuple[bool])"),
 				})
 			}
